@@ -61,6 +61,44 @@ func c34Corpus() []srcHello {
 			sp.Extensions = append(sp.Extensions, &tls.FakePreSharedKeyExtension{Identities: []tls.PskIdentity{{Label: rep(0x41, 64), ObfuscatedTicketAge: 3}}, Binders: [][]byte{rep(0x42, 32)}})
 			return u.ApplyPreset(sp)
 		})
+		// spliced variants of a Chrome hello: more GREASE extensions than BoringSSL ever sends (legal:
+		// RFC 8701 allows any number), and a GREASE ECH extension with a 65-byte encapsulated key
+		for _, b := range c34H {
+			if b.name != "HelloChrome_120" {
+				continue
+			}
+			h, err := wire.ParseClientHello(b.msg)
+			if err != nil {
+				break
+			}
+			for n := 3; n <= 4; n++ {
+				h2 := *h
+				exts := append([]wire.Ext(nil), h.Exts...)
+				have := 0
+				for _, e := range exts {
+					if wire.IsGREASE(e.Type) {
+						have++
+					}
+				}
+				last := exts[len(exts)-1]
+				exts = exts[:len(exts)-1]
+				for k := have; k < n; k++ {
+					exts = append(exts, wire.Ext{Type: []uint16{0x3a3a, 0x4a4a, 0x5a5a, 0x6a6a}[k], Body: []byte{}})
+				}
+				h2.Exts = append(exts, last)
+				c34H = append(c34H, srcHello{fmt.Sprintf("HelloChrome_120+%d-grease-extensions", n), rebuildHello(&h2, nil), b.sni})
+			}
+			if e := h.Find(0xfe0d); e != nil {
+				if o, inner, err := wire.ParseECH(e.Body); err == nil && !inner {
+					body := []byte{0, byte(o.KDF >> 8), byte(o.KDF), byte(o.AEAD >> 8), byte(o.AEAD), o.ConfigID, 0, 65}
+					body = append(body, rep(0x04, 65)...)
+					body = append(body, byte(len(o.Payload)>>8), byte(len(o.Payload)))
+					body = append(body, o.Payload...)
+					c34H = append(c34H, srcHello{"HelloChrome_120+ech-65-byte-key", rebuildHello(h, map[uint16][]byte{0xfe0d: body}), b.sni})
+				}
+			}
+			break
+		}
 	})
 	return c34H
 }
